@@ -394,8 +394,19 @@ func (x *c14Exec) enter(c *c14State, sb *ssa.BasicBlock) *c14State {
 			}
 		}
 	}
+	used := map[ssa.Value]bool{}
+	for _, v := range n.vals {
+		used[v] = true
+	}
+	definedHere := func(v ssa.Value) bool {
+		in, ok := v.(ssa.Instruction)
+		return ok && in.Block() == sb
+	}
 	for v, f := range c.facts {
-		if dominates(v) {
+		// what a test established about a value stays known while the value can still be referred to:
+		// its definition dominates sb, or a φ kept above stands for it on this path (the verdict
+		// `err` that is merged from several places and tested, or returned, further down)
+		if dominates(v) || (used[v] && !definedHere(v)) {
 			n.facts[v] = f
 		}
 	}
@@ -403,10 +414,6 @@ func (x *c14Exec) enter(c *c14State, sb *ssa.BasicBlock) *c14State {
 		if a.Block() == sb || dominates(a) {
 			n.mem[a] = o.clone()
 		}
-	}
-	used := map[ssa.Value]bool{}
-	for _, v := range n.vals {
-		used[v] = true
 	}
 	for v, o := range c.snaps {
 		if dominates(v) || used[v] {
